@@ -66,6 +66,18 @@ def api_list(prog):
             if meth == "is_normalized" and mk not in ("pdf", "diagpdf"):
                 continue        # lnZ is None until an integral was requested: jnp.equal(None, .) is outside the contract
             out.append((meth, mk, "R", unary(mk, meth, lambda: ([], {}), True)))
+    # ---------------- diagonal measure / density x factor (the product leaves the diagonal family unless the factor is diagonal too)
+    for mk in ("diag", "diagpdf"):
+        for fk in ("ConjugateFactor", "OneRankFactor", "LinearFactor"):
+            for uf in (False, True):
+                def rund(mk=mk, fk=fk, uf=uf, op="multiply"):
+                    I = build.new_interp()
+                    u = make_measure(I, mk, sym("R1") if op == "multiply" else R, Dd, "u")
+                    f = make_factor(I, fk, sym("R2") if op == "multiply" else R, Dd, "f")
+                    res = I.call_method(u, op, [f], dict(update_full=uf))
+                    return dict(I=I, operands={"u": u, "f": f}, result=res, batch=["u", "f"] if op == "multiply" else ["u|f"])
+                out.append(("multiply", f"{mk}*{fk}", f"R1xR2/full={int(uf)}", rund))
+                out.append(("hadamard", f"{mk}*{fk}", f"R/R/full={int(uf)}", (lambda mk=mk, fk=fk, uf=uf, rund=rund: rund(mk, fk, uf, "hadamard"))))
     # ---------------- measure x factor
     for mk in ("cold", "warm", "pdf"):
         for fk in FACTOR_KINDS:
@@ -110,9 +122,9 @@ def api_list(prog):
                 return dict(I=I, operands={"u": p}, result=res, batch=[None, "u"] if meth == "sample" else ["u"])
             return run
         out.append(("entropy", cls, "R", dens("entropy", lambda I: ([], {}))))
-        out.append(("get_marginal", cls, "R", dens("get_marginal", lambda I: ([build.indices("dims", sym("Dm"))], {}))))
-        out.append(("condition_on", cls, "R", dens("condition_on", lambda I: ([build.indices("dim_b", sym("Db"))], {}))))
-        out.append(("condition_on_explicit", cls, "R", dens("condition_on_explicit", lambda I: ([build.indices("dim_b", sym("Db")), build.indices("dim_a", sym("Da"))], {}))))
+        out.append(("get_marginal", cls, "R", dens("get_marginal", lambda I: ([build.indices("dims", sym("Dm"), distinct=True)], {}))))
+        out.append(("condition_on", cls, "R", dens("condition_on", lambda I: ([build.indices("dim_b", sym("Db"), distinct=True)], {}))))
+        out.append(("condition_on_explicit", cls, "R", dens("condition_on_explicit", lambda I: ([build.indices("dim_b", sym("Db"), distinct=True), build.indices("dim_a", Dd - sym("Db"), distinct=True)], {}))))
         out.append(("get_density_of_linear_sum", cls, "R", dens("get_density_of_linear_sum", lambda I: ([nf.atom("W", [R, sym("Ds"), Dd], owner="coef")], dict(b=nf.atom("bsum", [R, sym("Ds")], owner="coef"))))))
         out.append(("sample", cls, "R", dens("sample", lambda I: ([nf.atom("key", [2], kind="key"), sym("n")], {}))))
         out.append(("slice", cls, "R", dens("slice", lambda I: ([build.indices("idx", sym("Rn"))], {}))))
@@ -126,7 +138,7 @@ def api_list(prog):
             out.append(("kl_divergence", cls, b, runk))
     # ---------------- linear conditionals
     for cls in drivers.COND_CLASSES:
-        for ctx in drivers.BATCH_CTX:
+        for ctx in drivers.BATCH_CTX + ["1/1@diagprior"]:
             for meth in ("affine_joint_transformation", "affine_marginal_transformation", "affine_conditional_transformation",
                          "conditional_entropy", "mutual_information"):
                 for regime in (drivers.REGIMES if (meth in ("affine_joint_transformation", "conditional_entropy", "mutual_information") and not drivers.is_identity(cls)) else ["Dx<=Dy"]):
